@@ -27,6 +27,7 @@ package main
 import (
 	"fmt"
 	"go/ast"
+	"go/parser"
 	"go/token"
 	"go/types"
 	"os"
@@ -243,6 +244,14 @@ func (l *Loaded) restoreIdentities() []string {
 	pkgs := l.modulePkgs()
 	if notes := l.restoreParamOrder(pkgs); len(notes) > 0 {
 		defer func() { l.orderNotes = notes }()
+	}
+	if notes := l.restoreDerivedParams(pkgs); len(notes) > 0 {
+		prev := l.orderNotes
+		defer func() { l.orderNotes = append(prev, append(notes, l.orderNotes[len(prev):]...)...) }()
+	}
+	if notes := l.restoreDerivedReceivers(pkgs); len(notes) > 0 {
+		prev := l.orderNotes
+		defer func() { l.orderNotes = append(prev, append(notes, l.orderNotes[len(prev):]...)...) }()
 	}
 	decls := moduleDecls(pkgs)
 	have := map[string]bool{}
@@ -771,4 +780,400 @@ func (l *Loaded) restoreParamOrder(pkgs []*packages.Package) []string {
 		return nil
 	}
 	return notes
+}
+
+// restoreDerivedReceivers: a method of the pinned tree whose receiver every caller computed
+// from an argument (ref.parent.pathNode.nameFor(ref)) may have been turned into a function that
+// computes it itself (func nameFor(ref) { p := ref.parent.pathNode; ... }).  Such a function -
+// same base name, same parameters and results as the pinned method, not part of the pinned
+// tree, first statement "x := E" with x of the pinned receiver type and E built from the
+// parameters by field selection only - is given back the method form: the statement becomes
+// the receiver, every call m(args) becomes E[args].m(args).
+func (l *Loaded) restoreDerivedReceivers(pkgs []*packages.Package) []string {
+	decls := moduleDecls(pkgs)
+	have := map[string]*declRec{}
+	for _, d := range decls {
+		have[d.key] = d
+	}
+	var notes []string
+	affected := map[*packages.Package]bool{}
+	for key, pin := range pinnedSigs {
+		if have[key] != nil || !pin.Method || !isPinnedIn(key, l.Config) {
+			continue
+		}
+		parts := strings.Split(key, ".")
+		if len(parts) < 3 {
+			continue
+		}
+		base, recvT := parts[len(parts)-1], parts[len(parts)-2]
+		pkgKey := strings.Join(parts[:len(parts)-2], ".")
+		cand := have[pkgKey+"."+base]
+		if cand == nil || pinnedFuncs[cand.key] || cand.obj.Exported() || cand.decl.Recv != nil || cand.decl.Body == nil || len(cand.decl.Body.List) < 2 {
+			continue
+		}
+		// pinned "R,P1..Pn->res" against the candidate's "P1..Pn->res"
+		i := strings.Index(pin.Sig, ",")
+		arrow := strings.Index(pin.Sig, "->")
+		if arrow < 0 {
+			continue
+		}
+		rest := pin.Sig[arrow:]
+		recvSig := pin.Sig[:arrow]
+		if i >= 0 && i < arrow {
+			recvSig, rest = pin.Sig[:i], pin.Sig[i+1:]
+		}
+		if flatSig(cand.obj) != rest {
+			continue
+		}
+		info := cand.pkg.TypesInfo
+		first, ok := cand.decl.Body.List[0].(*ast.AssignStmt)
+		if !ok || first.Tok != token.DEFINE || len(first.Lhs) != 1 || len(first.Rhs) != 1 {
+			continue
+		}
+		xid, ok := first.Lhs[0].(*ast.Ident)
+		if !ok {
+			continue
+		}
+		xobj := info.Defs[xid]
+		q := func(p *types.Package) string { return p.Name() }
+		if xobj == nil || types.TypeString(xobj.Type(), q) != recvSig || !strings.HasSuffix(strings.TrimPrefix(recvSig, "*"), "."+recvT) {
+			continue
+		}
+		// E: parameters and field selections only
+		params := map[types.Object]int{}
+		idx := 0
+		for _, f := range cand.decl.Type.Params.List {
+			for _, nm := range f.Names {
+				params[info.Defs[nm]] = idx
+				idx++
+			}
+		}
+		pure := true
+		ast.Inspect(first.Rhs[0], func(n ast.Node) bool {
+			switch v := n.(type) {
+			case *ast.Ident:
+				if o := info.Uses[v]; o != nil {
+					if _, isParam := params[o]; !isParam {
+						if _, isField := o.(*types.Var); !isField || !o.(*types.Var).IsField() {
+							pure = false
+						}
+					}
+				}
+			case *ast.SelectorExpr, *ast.ParenExpr, *ast.StarExpr:
+			case nil:
+			default:
+				pure = false
+			}
+			return true
+		})
+		// the receiver variable must not be reassigned in the body
+		reassigned := false
+		ast.Inspect(cand.decl.Body, func(n ast.Node) bool {
+			if as, ok := n.(*ast.AssignStmt); ok && as != first {
+				for _, lhs := range as.Lhs {
+					if id, ok := lhs.(*ast.Ident); ok && info.Uses[id] == xobj {
+						reassigned = true
+					}
+				}
+			}
+			return true
+		})
+		pl := &identityPlan{key: key, pinned: pin, cand: cand}
+		if !pure || reassigned || !l.collectUses(pl, pkgs) {
+			continue
+		}
+		okCalls := true
+		for _, c := range pl.calls {
+			if len(c.Args) != idx || c.Ellipsis.IsValid() {
+				okCalls = false
+			}
+		}
+		if !okCalls {
+			continue
+		}
+		// receiver type expression
+		var rtype ast.Expr = &ast.Ident{Name: recvT, NamePos: xid.Pos()}
+		if strings.HasPrefix(recvSig, "*") {
+			rtype = &ast.StarExpr{Star: xid.Pos(), X: rtype}
+		}
+		for _, c := range pl.calls {
+			recvExpr := cloneNode(first.Rhs[0])
+			// substitute the parameters by the arguments
+			var subst func(e ast.Expr) ast.Expr
+			subst = func(e ast.Expr) ast.Expr {
+				switch v := e.(type) {
+				case *ast.Ident:
+					return e
+				case *ast.SelectorExpr:
+					v.X = subst(v.X)
+				case *ast.ParenExpr:
+					v.X = subst(v.X)
+				case *ast.StarExpr:
+					v.X = subst(v.X)
+				}
+				return e
+			}
+			// map cloned identifiers by name to parameters (names are unique in the list)
+			byName := map[string]int{}
+			for o, i := range params {
+				byName[o.Name()] = i
+			}
+			var repl func(e ast.Expr) ast.Expr
+			repl = func(e ast.Expr) ast.Expr {
+				switch v := e.(type) {
+				case *ast.Ident:
+					if i, ok := byName[v.Name]; ok {
+						return parenIfNeeded(cloneNode(c.Args[i]))
+					}
+				case *ast.SelectorExpr:
+					v.X = repl(v.X)
+				case *ast.ParenExpr:
+					v.X = repl(v.X)
+				case *ast.StarExpr:
+					v.X = repl(v.X)
+				}
+				return e
+			}
+			_ = subst
+			recvExpr = repl(recvExpr)
+			c.Fun = &ast.SelectorExpr{X: recvExpr, Sel: identAt(base, c.Fun.Pos())}
+		}
+		cand.decl.Recv = &ast.FieldList{Opening: cand.decl.Name.Pos(), List: []*ast.Field{{Names: []*ast.Ident{xid}, Type: rtype}}, Closing: cand.decl.Name.Pos()}
+		cand.decl.Body.List = cand.decl.Body.List[1:]
+		affected[cand.pkg] = true
+		notes = append(notes, fmt.Sprintf("%s is judged as the method %s (its first statement computes the former receiver from its arguments)", cand.key, key))
+	}
+	if len(affected) == 0 {
+		return nil
+	}
+	if err := l.recheck(affected); err != nil {
+		l.identityErr = fmt.Errorf("restoring a derived receiver failed: %v", err)
+		return nil
+	}
+	return notes
+}
+
+// restoreDerivedParams is the mirror image of restoreDerivedReceivers: a plain function of the
+// pinned tree (chunk(chunkSize, fn, p, offset)) whose callers all computed an argument from one
+// object (c.client.payloadSize) may have become a method of that object which computes the
+// value itself (func (c *clientFile) chunk(fn, p, offset) { chunkSize := c.client.payloadSize;
+// ... }).  When the method has the pinned base name, its parameters are the pinned ones with
+// some left out, its leading statements define exactly the left-out ones (same types, in
+// order) from the receiver by field selection, and the receiver is not used otherwise, the
+// pinned form is restored: the leading statements become parameters again and every call
+// x.m(args) becomes m(E[x]..., args).
+func (l *Loaded) restoreDerivedParams(pkgs []*packages.Package) []string {
+	decls := moduleDecls(pkgs)
+	have := map[string]bool{}
+	for _, d := range decls {
+		have[d.key] = true
+	}
+	var notes []string
+	affected := map[*packages.Package]bool{}
+	q := func(p *types.Package) string { return p.Name() }
+	for key, pin := range pinnedSigs {
+		if have[key] || pin.Method || !isPinnedIn(key, l.Config) {
+			continue
+		}
+		base := key[strings.LastIndexByte(key, '.')+1:]
+		pkgKey := key[:strings.LastIndexByte(key, '.')]
+		for _, cand := range decls {
+			if cand.decl.Recv == nil || cand.decl.Name.Name != base || pinnedFuncs[cand.key] || cand.obj.Exported() || cand.decl.Body == nil ||
+				!strings.HasPrefix(cand.key, pkgKey+".") || len(cand.decl.Recv.List) != 1 || len(cand.decl.Recv.List[0].Names) != 1 {
+				continue
+			}
+			info := cand.pkg.TypesInfo
+			sig := cand.obj.Type().(*types.Signature)
+			// results must agree
+			arrow := strings.Index(pin.Sig, "->")
+			cs := flatSig(cand.obj)
+			if arrow < 0 || cs[strings.Index(cs, "->"):] != pin.Sig[arrow:] || sig.Variadic() {
+				continue
+			}
+			// candidate parameters as a subsequence of the pinned ones
+			var cur []string
+			for i := 0; i < sig.Params().Len(); i++ {
+				cur = append(cur, types.TypeString(sig.Params().At(i).Type(), q))
+			}
+			var pinT []string
+			for _, pp := range pin.Params {
+				pinT = append(pinT, pp[strings.Index(pp, " ")+1:])
+			}
+			var missing []int // pinned positions that the candidate lacks
+			j := 0
+			for i, t := range pinT {
+				if j < len(cur) && cur[j] == t {
+					j++
+				} else {
+					missing = append(missing, i)
+				}
+			}
+			if j != len(cur) || len(missing) == 0 || len(missing) >= len(cand.decl.Body.List) {
+				continue
+			}
+			recvObj := info.Defs[cand.decl.Recv.List[0].Names[0]]
+			// leading statements x := E(receiver)
+			var defs []*ast.AssignStmt
+			okLead := true
+			for k, mi := range missing {
+				as, ok := cand.decl.Body.List[k].(*ast.AssignStmt)
+				if !ok || as.Tok != token.DEFINE || len(as.Lhs) != 1 || len(as.Rhs) != 1 {
+					okLead = false
+					break
+				}
+				id, ok := as.Lhs[0].(*ast.Ident)
+				if !ok || info.Defs[id] == nil || types.TypeString(info.Defs[id].Type(), q) != pinT[mi] {
+					okLead = false
+					break
+				}
+				pure := true
+				ast.Inspect(as.Rhs[0], func(n ast.Node) bool {
+					switch v := n.(type) {
+					case *ast.Ident:
+						if o := info.Uses[v]; o != nil && o != recvObj {
+							if fv, isVar := o.(*types.Var); !isVar || !fv.IsField() {
+								pure = false
+							}
+						}
+					case *ast.SelectorExpr, *ast.ParenExpr:
+					case nil:
+					default:
+						pure = false
+					}
+					return true
+				})
+				if !pure {
+					okLead = false
+					break
+				}
+				defs = append(defs, as)
+			}
+			if !okLead {
+				continue
+			}
+			// the receiver is used nowhere else, the restored parameters are not reassigned
+			usedElsewhere := false
+			for _, st := range cand.decl.Body.List[len(defs):] {
+				ast.Inspect(st, func(n ast.Node) bool {
+					if id, ok := n.(*ast.Ident); ok && info.Uses[id] == recvObj {
+						usedElsewhere = true
+					}
+					return true
+				})
+			}
+			if usedElsewhere || cand.obj.Pkg().Scope().Lookup(base) != nil {
+				continue
+			}
+			pl := &identityPlan{key: key, pinned: pin, cand: cand}
+			if !l.collectUses(pl, pkgs) {
+				continue
+			}
+			okCalls := true
+			for _, c := range pl.calls {
+				sel, isSel := unparen(c.Fun).(*ast.SelectorExpr)
+				if !isSel || len(c.Args) != len(cur) || c.Ellipsis.IsValid() {
+					okCalls = false
+					continue
+				}
+				if s := info.Selections[sel]; s == nil || s.Kind() != types.MethodVal || len(s.Index()) != 1 {
+					okCalls = false
+				}
+			}
+			if !okCalls {
+				continue
+			}
+			recvName := cand.decl.Recv.List[0].Names[0].Name
+			// declaration
+			var flat []*ast.Field
+			for _, f := range cand.decl.Type.Params.List {
+				for _, nm := range f.Names {
+					flat = append(flat, &ast.Field{Names: []*ast.Ident{nm}, Type: f.Type})
+				}
+			}
+			if len(flat) != len(cur) {
+				continue
+			}
+			var newParams []*ast.Field
+			fi, di := 0, 0
+			for i := range pinT {
+				if di < len(missing) && missing[di] == i {
+					id := defs[di].Lhs[0].(*ast.Ident)
+					texpr, err := parseTypeExpr(pinT[i], cand.obj.Pkg().Name())
+					if err != nil {
+						okCalls = false
+						break
+					}
+					newParams = append(newParams, &ast.Field{Names: []*ast.Ident{id}, Type: texpr})
+					di++
+				} else {
+					newParams = append(newParams, flat[fi])
+					fi++
+				}
+			}
+			if !okCalls {
+				continue
+			}
+			for _, c := range pl.calls {
+				sel := unparen(c.Fun).(*ast.SelectorExpr)
+				var args []ast.Expr
+				ai, di := 0, 0
+				for i := range pinT {
+					if di < len(missing) && missing[di] == i {
+						e := cloneNode(defs[di].Rhs[0])
+						var repl func(e ast.Expr) ast.Expr
+						repl = func(e ast.Expr) ast.Expr {
+							switch v := e.(type) {
+							case *ast.Ident:
+								if v.Name == recvName {
+									return parenIfNeeded(cloneNode(sel.X))
+								}
+							case *ast.SelectorExpr:
+								v.X = repl(v.X)
+							case *ast.ParenExpr:
+								v.X = repl(v.X)
+							}
+							return e
+						}
+						args = append(args, repl(e))
+						di++
+					} else {
+						args = append(args, c.Args[ai])
+						ai++
+					}
+				}
+				c.Fun = identAt(base, sel.Sel.Pos())
+				c.Args = args
+			}
+			cand.decl.Recv = nil
+			cand.decl.Type.Params.List = newParams
+			cand.decl.Body.List = cand.decl.Body.List[len(defs):]
+			affected[cand.pkg] = true
+			notes = append(notes, fmt.Sprintf("%s is judged as the function %s (its leading statements compute the former parameters from its receiver)", cand.key, key))
+			break
+		}
+	}
+	if len(affected) == 0 {
+		return nil
+	}
+	if err := l.recheck(affected); err != nil {
+		l.identityErr = fmt.Errorf("restoring derived parameters failed: %v", err)
+		return nil
+	}
+	return notes
+}
+
+// parseTypeExpr turns a type string of the generated table ("uint32", "*p9.buffer",
+// "func([]byte, int64) (int, error)") into a type expression usable inside package pkg.
+func parseTypeExpr(t, pkg string) (ast.Expr, error) {
+	t = strings.ReplaceAll(t, pkg+".", "")
+	return parser.ParseExpr(t)
+}
+
+// parenIfNeeded wraps an expression that is substituted as the operand of a selection.
+func parenIfNeeded(e ast.Expr) ast.Expr {
+	switch unparen(e).(type) {
+	case *ast.Ident, *ast.SelectorExpr, *ast.CallExpr, *ast.IndexExpr:
+		return e
+	}
+	return &ast.ParenExpr{Lparen: e.Pos(), X: e, Rparen: e.End()}
 }
